@@ -27,7 +27,7 @@ m = {
     "hooks": {"guard": "verif", "enable": "none needed: the checks read source; files guarded by -tags verif would be analysed by the thorough tier", "baseline_off_cmd": "cd /repo && GOFLAGS=-mod=mod GOPROXY=off go test -json -vet=off -count=1 -timeout 25m ./...", "source_commits": [], "add_only": True},
     "engines": [{"name": "cometlint", "path": "checker/", "serves_properties": [c['property_id'] for c in checks], "kind_free_text": "repository-specific static analyser over go/packages + go/ssa (x/tools v0.50.0): canonical SSA values, path enumeration with finite-order abstraction, dominance / reach-avoid queries, value-flow, lock sets, serialisation grammar extraction; analysed on an inlining normal form of the source (calls to helpers the pinned tree does not declare are inlined on an overlay: gopls inliner copied under checker/xt + a statement-level inliner), with rename resolution for unexported functions and struct fields"}],
     "checks": checks,
-    "notes": "Static analysis only. Every check loads and type-checks /repo's working tree on each run and evaluates necessary structural conditions of the property; undecided / unresolved / below-floor instances fail. Known findings: KNOWN_FINDINGS.jsonl. Self-validation material: seeded/ (221 confirmed seeded defects with demonstrations, MATRIX.json), refactors/ (543 behaviour-preserving or benign-evolution diffs on which every check must stay silent), tools_eqgen + tools_eqsweep.sh / tools_eqcombo.sh (exhaustive single-site and combined behaviour-preserving rewrites: every alarm is a false alarm by construction), tools_mutgen + tools_mutsweep.sh (single-site mutants).",
+    "notes": "Static analysis only. Every check loads and type-checks /repo's working tree on each run and evaluates necessary structural conditions of the property; undecided / unresolved / below-floor instances fail. Known findings: KNOWN_FINDINGS.jsonl. Self-validation material: seeded/ (221 confirmed seeded defects with demonstrations, MATRIX.json), refactors/ (573 behaviour-preserving or benign-evolution diffs on which every check must stay silent), tools_eqgen + tools_eqsweep.sh / tools_eqcombo.sh (exhaustive single-site and combined behaviour-preserving rewrites: every alarm is a false alarm by construction), tools_mutgen + tools_mutsweep.sh (single-site mutants).",
     "not_applicable": na,
 }
 json.dump(m, open('MANIFEST.json', 'w'), indent=1)
